@@ -13,6 +13,7 @@ VARIABLE c
 \* shadow: the consumer FILE also has a generic item one of whose type parameters is called like the imported type
 \* (struct Wrapper<Target> { w: Target }): inside that item the name is a placeholder, everywhere else in the file it is the
 \* imported type, which still has to be imported
+\* (shape swift_override: the only reference carries typeshare(swift(type = "Date")): an override for one language, the type is used - and imported - in every other)
 \* shape: the consumer's ONLY references to the type: plain_and_vec (a field of the type and a Vec of it) / map_key / map_val /
 \* gen_first / gen_last (first / last argument of a two-parameter generic of the consumer crate) / gen_nested_first: a type that is
 \* mentioned once, anywhere inside a type expression, is used by the file
